@@ -40,7 +40,7 @@ func GenTable(rng *rand.Rand, format string, maxLines int) *Table {
 	}
 	hosts := []string{"h1", "h2", "h3", "h4"}[:1+rng.Intn(4)]
 	statuses := []string{"200", "404", "500", "301"}[:1+rng.Intn(4)]
-	users := []string{"alice", "bob", "carol", "dave", "eve9", "u 1"}[:1+rng.Intn(6)]
+	users := []string{"alice", "bob", "carol", "dave", "eve9", "u 1", "u  2", "Oct  4 x"}[:1+rng.Intn(8)]
 	paths := []string{"/", "/login", "/api/v1/items", "/api/v2", "/a-b_c", "select", "from", "/x?y=1"}
 	type fdef struct {
 		name string
